@@ -107,6 +107,24 @@ def run_with_slow_wall_clock(sc, workdir):
             mod.time = real_time
 
 
+def run_with_verbose_logging(sc, workdir):
+    """the same run with the `topsim` loggers at INFO level (records discarded): what is logged must not influence what
+    is simulated"""
+    import logging
+    lg = logging.getLogger('topsim')
+    old_level, old_prop = lg.level, lg.propagate
+    h = logging.NullHandler()
+    lg.addHandler(h)
+    lg.setLevel(logging.INFO)
+    lg.propagate = False
+    try:
+        return run_once(sc, workdir)
+    finally:
+        lg.setLevel(old_level)
+        lg.propagate = old_prop
+        lg.removeHandler(h)
+
+
 def run_interleaved(sc, other, workdir):
     """the scenario's simulation is built, then another simulation is built AND run in the same interpreter, and only then
     the first one runs: its outputs must not depend on that"""
@@ -131,6 +149,8 @@ def main():
             res = {'first': a, 'second': b, 'hashseed': os.environ.get('PYTHONHASHSEED')}
             if msg.get('interleave') and 'machines' not in msg:
                 res['third'] = run_interleaved(sc, msg['interleave'], workdir)
+            if msg.get('verbose_log') and 'machines' not in msg:
+                res['sixth'] = run_with_verbose_logging(sc, workdir)
             if msg.get('slow_clock') and 'machines' not in msg:
                 res['fifth'] = run_with_slow_wall_clock(sc, workdir)
             if msg.get('shared_dm') and 'machines' not in msg and sc.get('delay_model'):
